@@ -67,6 +67,7 @@ def run_units(units, repo, verif, work, tier, jobs=None):
     results = {}
     scratch = make_scratch(repo, work)
     wanted = []   # (unit, harness spec)
+    overlaid = set()
     for u in units:
         spec = config.UNITS[u]
         r = KResult(u)
@@ -77,9 +78,11 @@ def run_units(units, repo, verif, work, tier, jobs=None):
             r.reason = 'lost anchor: %s is gone' % spec['module_file']
             continue
         hfile = os.path.join(verif, 'kani', spec['file'])
-        modname = 'kani_' + re.sub(r'[^a-z0-9]', '_', u.lower())
-        with open(modfile, 'a') as fh:
-            fh.write('\n#[cfg(kani)]\n#[path = "%s"]\nmod %s;\n' % (hfile, modname))
+        modname = 'kani_' + re.sub(r'[^a-z0-9]', '_', spec['file'].lower().replace('.rs', ''))
+        if (spec['module_file'], spec['file']) not in overlaid:
+            overlaid.add((spec['module_file'], spec['file']))
+            with open(modfile, 'a') as fh:
+                fh.write('\n#[cfg(kani)]\n#[path = "%s"]\nmod %s;\n' % (hfile, modname))
         r.rewrites.append({'rule': 'overlay', 'file': spec['module_file'], 'line': 0, 'what': 'appended #[cfg(kani)] mod %s (harness file kani/%s)' % (modname, spec['file'])})
         for f in spec.get('functions', []):
             r.functions.append((f, spec['module_file'], spec.get('fn_status', 'proved (complete harness)')))
@@ -92,9 +95,9 @@ def run_units(units, repo, verif, work, tier, jobs=None):
     if not live:
         return list(results.values())
     jobs = jobs or int(os.environ.get('VERIF_KANI_JOBS', '8'))
-    cmd = ['cargo', 'kani', '-Z', 'function-contracts', '-Z', 'stubbing', '--output-format', 'terse', '-j', str(jobs)]
+    cmd = ['cargo', 'kani', '-Z', 'function-contracts', '-Z', 'stubbing', '--output-format', 'terse', '-j', str(jobs), '--exact']
     for u, h in live:
-        cmd += ['--harness', h['name']]
+        cmd += ['--harness', full_name(u, h['name'])]
     env = dict(os.environ)
     env['CARGO_NET_OFFLINE'] = 'true'
     env['CARGO_TARGET_DIR'] = os.path.join(work, 'kani-target')
@@ -118,7 +121,7 @@ def run_units(units, repo, verif, work, tier, jobs=None):
         r = results[u]
         if r.status != 'ok':
             continue
-        r.cmd = ' '.join(cmd[:9]) + ' ' + ' '.join('--harness ' + h['name'] for uu, h in live if uu == u)
+        r.cmd = ' '.join(cmd[:10]) + ' ' + ' '.join('--harness ' + full_name(uu, h['name']) for uu, h in live if uu == u)
         kinds = set()
         for uu, h in live:
             if uu != u:
@@ -188,15 +191,28 @@ def run_units(units, repo, verif, work, tier, jobs=None):
             if not hn or hn in done:
                 continue
             done.add(hn)
-            pb = playback(scratch, env, hn)
+            pb = playback(scratch, env, full_name(u, hn))
             for g in r.failed:
                 if g.get('harness') == hn:
                     g['playback'] = pb
     return list(results.values())
 
 
+def full_name(unit, harness):
+    spec = config.UNITS[unit]
+    mf = spec['module_file']
+    p = mf[4:] if mf.startswith('src/') else mf
+    p = p[:-3] if p.endswith('.rs') else p
+    if p.endswith('/mod'):
+        p = p[:-4]
+    if p == 'lib':
+        p = ''
+    modname = 'kani_' + re.sub(r'[^a-z0-9]', '_', spec['file'].lower().replace('.rs', ''))
+    return (p.replace('/', '::') + '::' if p else '') + modname + '::' + harness
+
+
 def playback(scratch, env, harness):
-    cmd = ['cargo', 'kani', '-Z', 'function-contracts', '-Z', 'stubbing', '-Z', 'concrete-playback', '--concrete-playback=print', '--harness', harness]
+    cmd = ['cargo', 'kani', '-Z', 'function-contracts', '-Z', 'stubbing', '-Z', 'concrete-playback', '--concrete-playback=print', '--exact', '--harness', harness]
     try:
         p = subprocess.run(cmd, cwd=scratch, env=env, stdout=subprocess.PIPE, stderr=subprocess.STDOUT, text=True, timeout=600)
     except subprocess.TimeoutExpired:
